@@ -255,6 +255,12 @@ def main(argv):
                 else:
                     violations.append((o.name, rp, r.get('failed'), out))
                     d['status'] = 'violated'
+            elif o.kind == 'crosshair' and rc == 0:
+                # CrossHair's own string/regex model produced a witness the real interpreter does not confirm: inconclusive, never a verdict
+                if d['status'] == 'discharged':
+                    d['status'] = 'inconclusive'
+                inconclusive.append('%s: CrossHair witness %s does not reproduce under the real interpreter (tool model imprecision)' % (o.name, (r.get('cex') or {}).get('args')))
+                os.remove(rp)
             else:
                 d['status'] = 'harness-error'
                 errors.append('%s case %r: solver witness did not reproduce on the real code (rc=%d): %s\n%s' % (
